@@ -58,9 +58,12 @@ type c01Stmt struct {
 
 type c01Req struct {
 	Endpoint string
+	Level    string // read consistency level given to /db/request ("" = default)
 	Tx       bool
 	Stmts    []c01Stmt
 	NonDet   int
+
+	SelectFirst bool
 }
 
 func (r c01Req) String() string {
@@ -76,7 +79,10 @@ func (r c01Req) String() string {
 	if r.Tx {
 		tx = ",tx"
 	}
-	return fmt.Sprintf("%s%s{%s}", r.Endpoint, tx, strings.Join(parts, "; "))
+	if r.Level != "" {
+		tx += ",level=" + r.Level
+	}
+	return fmt.Sprintf("%s%s{%s}", r.Endpoint, tx, strings.Join(parts, " ;; "))
 }
 
 var c01Random = []string{"RANDOM()", "random()", "abs(random()) % 1000", "RANDOMBLOB(8)", "hex(randomblob(4))", "random() + 1", "Random()", "randomblob(3)"}
@@ -193,10 +199,21 @@ func c01GenProgram(rt *rapid.T) (reqs []c01Req) {
 			if ep == "execute-json" || ep == "request" {
 				r.Tx = rapid.IntRange(0, 2).Draw(rt, "tx") == 0
 			}
+			if ep == "request" {
+				r.Level = rapid.SampledFrom([]string{"", "none", "weak", "linearizable", "strong"}).Draw(rt, "level")
+			}
 			ns := rapid.IntRange(1, 3).Draw(rt, "nstmt")
 			for j := 0; j < ns; j++ {
 				class := rapid.SampledFrom([]string{"random", "time", "both"}).Draw(rt, "ndClass")
 				st, nd := c01GenStmt(rt, c01Table[ep], class, true, allowParams)
+				// a multi-statement text whose FIRST statement is a SELECT and whose
+				// later statement is the write with the calls: it must still be
+				// recognised as a write and rewritten, on every endpoint and level
+				if len(st.Params) == 0 && rapid.IntRange(0, 2).Draw(rt, "selectFirst") == 0 {
+					lead := rapid.SampledFrom([]string{"SELECT 1", "SELECT count(*) FROM " + c01Table[ep], "select id FROM " + c01Table[ep] + " WHERE id = 1"}).Draw(rt, "leadingSelect")
+					st.SQL = lead + "; " + st.SQL
+					r.SelectFirst = true
+				}
 				r.Stmts = append(r.Stmts, st)
 				r.NonDet += nd
 			}
@@ -285,8 +302,13 @@ func c01Send(cl *http.Client, base string, r c01Req) (int, string, error) {
 		url, ctype, body = base+"/db/execute?queue&wait&timeout=20s", "application/json", c01Body(r.Stmts)
 	case "request":
 		url, ctype, body = base+"/db/request", "application/json", c01Body(r.Stmts)
+		sep := "?"
 		if r.Tx {
 			url += "?transaction"
+			sep = "&"
+		}
+		if r.Level != "" {
+			url += sep + "level=" + r.Level
 		}
 	case "load-text":
 		url, ctype, body = base+"/db/load", "text/plain", []byte(texts())
@@ -409,7 +431,7 @@ func c01Case(rt *rapid.T, rec *vstat.Rec) {
 		}
 		cdcFollower = rapid.SampledFrom([]string{"off", "off", "stalled"}).Draw(rt, "cdcFollower")
 		enableCDC(b, cdcFollower)
-		if err := a.Join(&proto.JoinRequest{Id: "b", Address: b.Addr(), Voter: rapid.Bool().Draw(rt, "bVoter")}); err != nil {
+		if err := a.Join(&proto.JoinRequest{Id: "b", Address: b.Addr(), Voter: rapid.IntRange(0, 2).Draw(rt, "bVoter") == 0}); err != nil {
 			rec.Label("inconclusive:join-b")
 			return
 		}
@@ -448,7 +470,11 @@ func c01Case(rt *rapid.T, rec *vstat.Rec) {
 	// attached it must be refused; if the endpoint reports success anyway, the
 	// follower still has to end up with the same database as the leader.
 	boot := "none"
-	if rapid.IntRange(0, 3).Draw(rt, "bootAtEnd") == 0 {
+	bootOdds := 3 // 1 in 4 on a single node, 1 in 2 with a follower attached
+	if followerLive {
+		bootOdds = 1
+	}
+	if rapid.IntRange(0, bootOdds).Draw(rt, "bootAtEnd") == 0 {
 		img := filepath.Join(base, "boot.db")
 		if db, err := vsql.Open(img); err == nil {
 			db.Exec("CREATE TABLE booted (id INTEGER PRIMARY KEY, x)")
@@ -536,6 +562,12 @@ func c01Case(rt *rapid.T, rec *vstat.Rec) {
 		for _, r := range reqs {
 			if r.NonDet > 0 {
 				rec.Label("nd-via:" + r.Endpoint)
+			}
+			if r.SelectFirst && r.NonDet > 0 {
+				rec.Label("select-first-text-via:" + r.Endpoint)
+			}
+			if r.Endpoint == "request" {
+				rec.Label("request-level:" + r.Level)
 			}
 		}
 		if ndSent == 0 {
